@@ -10,6 +10,7 @@ list of buffer sizes.  No bound on any size except where Go's `int` itself is th
 import Hts.Lemmas.FaiFileText
 import Hts.Lemmas.FaiSane
 import Hts.Lemmas.FaiSample
+import Hts.Lemmas.FaiReaderAt
 set_option linter.unusedVariables false
 set_option linter.unusedSimpArgs false
 namespace Hts.Props.C19
@@ -114,6 +115,40 @@ theorem read_exact (f : File) (h : f.WF) (idx : Index) (hidx : newIndex f.render
   · rw [hcalls]; exact Hts.Lemmas.Fai.expectedCalls_data r.bases e ks s
   · intro hlt; rw [hcalls]; exact Hts.Lemmas.Fai.expectedCalls_eof r.bases e ks s hlt
   · intro hle; rw [hcalls]; exact Hts.Lemmas.Fai.expectedCalls_nil r.bases e ks s hle
+
+/-- `read_exact_any_readerat`: the same over ANY `io.ReaderAt` of the file.  `read_call`/`read_exact` fix the
+reader's behaviour to that of `bytes.Reader`/`os.File` (io.EOF only with a short read).  The contract also lets a
+reader report io.EOF together with a complete read that ends exactly at the end of the input; `eager` is an
+arbitrary choice of the reads where it does so (`Model.Fai.readLoopE`).  For every such reader, every range and
+every list of positive buffer sizes: the bytes read are `bases[s, min e (s+Σk))`; every error is nil or io.EOF;
+if `Σk > e-s` the run is nil-calls followed by exactly one io.EOF (so the bytes are exactly `bases[s,e)`) — an
+io.EOF, early or not, is only ever returned once the segment is complete.  With `eager = fun _ _ => false` the
+run is literally `readCalls` (`readCallsE_false`). -/
+theorem read_exact_any_readerat (eager : Nat → Nat → Bool) (f : File) (h : f.WF) (idx : Index)
+    (hidx : newIndex f.render = .ok idx) (r : Rec) (hr : r ∈ f.recs) (s e : Nat) (hse : s ≤ e)
+    (he : e ≤ r.bases.length) (ks : List Nat) (hks : ∀ k ∈ ks, 1 ≤ k) :
+    ∃ sq, seqRange idx r.name s e = .ok sq ∧
+      ((readCallsE eager f.render sq ks).map (·.1)).flatten = (r.bases.drop s).take (min (e - s) ks.sum) ∧
+      (e - s < ks.sum →
+        ∃ pre d, readCallsE eager f.render sq ks = pre ++ [(d, .eof)] ∧ ∀ x ∈ pre, x.2 = .nil) ∧
+      (∀ x ∈ readCallsE eager f.render sq ks, x.2 = .nil ∨ x.2 = .eof) ∧
+      readCallsE (fun _ _ => false) f.render sq ks = readCalls f.render sq ks := by
+  obtain ⟨sq, h1, hc, hs, hst, _⟩ := read_exact f h idx hidx r hr s e hse he ks
+  have hidx' := hidx
+  rw [index_true f h] at hidx'
+  cases hidx'
+  obtain ⟨R, hl, g, _, _⟩ := Hts.Lemmas.Fai.record_in_file f h r hr
+  have hsq : sq = ⟨R, s, s, e⟩ := by
+    have := Hts.Lemmas.Fai.seqRange_bounds _ _ _ _ sq h1
+    rw [hl] at this
+    cases sq
+    simp only at hc hs hst this
+    have hr' := Option.some.inj this.2.2
+    subst hc hs hst hr'
+    rfl
+  subst hsq
+  obtain ⟨a, b, c⟩ := Hts.Lemmas.Fai.readCallsE_spec eager f.render R r.bases g s e he ks hks s hse
+  exact ⟨_, h1, a, b, c, Hts.Lemmas.Fai.readCallsE_false _ _ _⟩
 
 /-- `read_whole`: `File.Seq(name)` is the range `[0, length)`: reading it returns all bases, then io.EOF. -/
 theorem read_whole (f : File) (h : f.WF) (idx : Index) (hidx : newIndex f.render = .ok idx)
@@ -321,6 +356,10 @@ example := read_exact sampleFile (by decide) _ (index_true sampleFile (by decide
 /-- the range [2,8) of the CRLF record `s1`, buffers 3, 3, 3 -/
 example := read_exact sampleFile (by decide) _ (index_true sampleFile (by decide))
   Hts.Lemmas.Fai.sampleRec1 (by simp [sampleFile]) 2 8 (by decide) (by decide) [3, 3, 3]
+
+/-- the last range of the last record (no final newline) over a reader that reports io.EOF with the last bytes -/
+example := read_exact_any_readerat (fun _ _ => true) sampleFile (by decide) _ (index_true sampleFile (by decide))
+  Hts.Lemmas.Fai.sampleRec2 (by simp [sampleFile]) 1 3 (by decide) (by decide) [2, 5] (by decide)
 
 example := read_whole sampleFile (by decide) _ (index_true sampleFile (by decide))
   Hts.Lemmas.Fai.sampleRec1 (by simp [sampleFile]) [64]
